@@ -46,6 +46,8 @@ def variants(prop, case):
         return [{"via": "flat", "via2": "flat"}, {"via": RVIAS[h % len(RVIAS)], "via2": RVIAS[(h // 16) % len(RVIAS)]}]
     if op == "ragged_slice":
         return [{"via": "flat"}, {"via": RVIAS[h % len(RVIAS)], "how": ["fn", "nps"][(h // 16) % 2]}]
+    if op.startswith("bit_"):
+        return [{"indt": ["u8", "u4", "u2", "u1", "i8", "i4"][h % 6], "npidx": bool(h & 8), "listkind": ["list", "array"][(h // 16) % 2], "again": bool(h & 64)}]
     if op == "rl_roundtrip":
         return [{"input": ["array", "list"][h % 2], "conv": ["asarray", "array"][(h // 2) % 2]}]
     RLV = ["from_array", "concat2", "concat3", "pieces", "ufunc", "astype"]
